@@ -288,11 +288,23 @@ func (u *Universe) GenPackets(t *rapid.T, startUS int64, seed uint32) []SPacket 
 			add(gap, d, 0)
 		}
 	}
-	kind := rapid.IntRange(0, 19).Draw(t, "pktkind")
+	kind := rapid.IntRange(0, 20).Draw(t, "pktkind")
 	if u.NoIdle && kind >= 17 {
 		kind = 0
 	}
+	if kind == 20 && (u.NoBig || u.BigBudget <= 0) {
+		kind = 1
+	}
 	switch {
+	case kind == 20:
+		// a chatty stream: thousands of direction changes, so that the per-stream table of direction runs
+		// is larger than any copy buffer (4 KiB and more)
+		u.BigBudget -= 150000
+		n := rapid.IntRange(1200, 5000).Draw(t, "chatty")
+		for i := 0; i < n; i++ {
+			add(rapid.SampledFrom([]int64{0, 1, 1, 50}).Draw(t, "chattygap"), i&1, rapid.IntRange(1, 3).Draw(t, "chattylen"))
+		}
+		normal(rapid.IntRange(0, 2).Draw(t, "post"))
 	case kind < 9:
 		normal(rapid.IntRange(1, 6).Draw(t, "npk"))
 	case kind < 17:
@@ -565,6 +577,8 @@ type FileStats struct {
 	ServerFirst   bool // first payload travels server -> client
 	TrailingIdle  int
 	SubSecondBase bool
+	MaxDirChanges int  // most direction changes (between packets with payload) in one stream
+	ChattyNotLast bool // a stream with > 1000 direction changes is followed by another stream with payload
 }
 
 // Stats computes the classes of a list of records in add order.
@@ -586,6 +600,21 @@ func Stats(recs []*SRec) FileStats {
 		}
 		run := 0
 		seenPayload := false
+		changes, lastDir := 0, -1
+		for _, p := range r.Packets {
+			if len(p.Payload) != 0 {
+				if lastDir >= 0 && p.Dir != lastDir {
+					changes++
+				}
+				lastDir = p.Dir
+			}
+		}
+		if changes > st.MaxDirChanges {
+			st.MaxDirChanges = changes
+		}
+		if lastDir >= 0 && st.MaxDirChanges > 1000 && changes <= 1000 {
+			st.ChattyNotLast = true
+		}
 		for j, p := range r.Packets {
 			caps[p.File] = true
 			if hi[p.File] == nil {
